@@ -105,7 +105,7 @@ func (x *Exec) call(st *State, c *ssa.Call) bool {
 		fr.regs[c] = res
 		return true
 	}
-	if fc := x.prog.contractFor(callee); fc != nil && !fc.Inline && !x.inlineHere(fc) {
+	if fc := x.prog.contractFor(callee); fc != nil && !fc.Inline && !fc.InlineAtCalls && !x.inlineHere(fc) {
 		fr.regs[c] = x.applyContract(st, c, callee, fc, args)
 		return true
 	}
